@@ -107,6 +107,15 @@ def flex_boundary_inits(t, rng):
     return out[:6]
 
 
+def flex_prefix_inits(t, rng):
+    """FlexVec: a list and the same list with one more item (emplaced over each other's image, a buffer that is
+    reused keeps the longer chain's offsets behind the shorter one)"""
+    if t[0] != 'flex':
+        return []
+    x, y, z = (gen_init(t[1], rng, 1) for _ in range(3))
+    return ['(flex %s)' % x, '(flex %s %s)' % (x, y), '(flex %s %s %s)' % (x, y, z)]
+
+
 def vec_len_boundary_inits(t, rng):
     """FlatVec / FlatString whose length type is one byte wide: contents of L::MAX, L::MAX + 1 and 300 items (the
     capacity is clamped to L::MAX whatever the room; flat_vec![..] must check against the clamped value)"""
@@ -131,7 +140,7 @@ def stage1(shapes, seed, per_shape=3):
     rng = random.Random(seed * 7919 + 1)
     lines, meta = [], {}
     for sid, t in shapes:
-        inits = variant_inits(t, rng) + flex_boundary_inits(t, rng) + vec_len_boundary_inits(t, rng)
+        inits = variant_inits(t, rng) + flex_boundary_inits(t, rng) + vec_len_boundary_inits(t, rng) + flex_prefix_inits(t, rng)
         while len(inits) < per_shape + (1 if has_default(t) else 0):
             inits.append(gen_init(t, rng))
         seen = set()
@@ -217,6 +226,14 @@ def stage2(shapes, s1_meta, s1_model, seed, tier='quick'):
             for off in range(1, 2 * a if a > 1 else 2):
                 add('E', '%s.E%do%d' % (cid, n, off), sid, off, garbage(rng, n), ini, kind='emplace', base=cid,
                     extent=size)
+        # ---- a reused buffer: the same emplacement over the image of every other value of the shape (what an earlier
+        #      message left behind: lengths, offsets and terminators that are valid but stale)
+        for j, other in enumerate(by_shape[sid]):
+            if other == cid or j >= 8:
+                continue
+            oimg = images[other][1]
+            pre = (oimg + garbage(rng, max(0, size - len(oimg)) + a))
+            add('E', '%s.U%d' % (cid, j), sid, 0, pre, ini, kind='emplace', base=cid, extent=size)
         # ---- the canonical image: mapping, all prefixes, extensions
         add('M', '%s.M' % cid, sid, 0, img, kind='image', base=cid, size=size)
         cuts = range(0, size)
